@@ -48,6 +48,21 @@ Theorem C14_parse_error_lines : forall s es e, parse_ledger s = LErr es e ->
 Proof. exact parse_error_lines. Qed.
 Print Assumptions C14_parse_error_lines.
 
+(* the error span - the one character the renderer underlines - never reaches into the next line:
+   for EVERY byte k of the span, the line a renderer shows for it (line_start + line feeds before
+   it in the snippet) is the line of the offset where parsing stopped, in the original text.  Also
+   when parsing stopped exactly at a line feed: the line feed is the whole span.  So the only
+   line of the file a syntax diagnostic shows is the line where parsing stopped, whatever follows
+   it (the next entry directly below, a comment, the end of the file). *)
+Theorem C14_parse_error_span_one_line : forall s es e, parse_ledger s = LErr es e ->
+  exists pre rest, s = pre ++ rest /\
+    pe_text_start e = utf8_len pre /\
+    forall k, fst (pe_span e) <= k -> k < snd (pe_span e) ->
+      pe_line_start e + count_nl (firstn (N.to_nat k) (utf8_encode rest)) =
+      1 + count_nl (firstn (N.to_nat (pe_text_start e + fst (pe_span e))) (utf8_encode s)).
+Proof. exact parse_error_one_line. Qed.
+Print Assumptions C14_parse_error_span_one_line.
+
 (* ---------- the composed loader (Model/Pipeline.v) ---------- *)
 
 (* Every entry the loader on a file system of texts hands to the callback - also before a
